@@ -33,6 +33,28 @@ def rq_bytes():
     return pdu.encode()
 
 
+ob = rec.get("id", "")
+if "AssociationSocket.send" in ob:
+    # a send after the provider closed its own transport: the REAL AssociationSocket.send on a wrapper whose socket is None
+    import types
+    from pynetdicom.transport import AssociationSocket
+    q = queue.Queue()
+    assoc = types.SimpleNamespace(get_handlers=lambda e: [], dul=types.SimpleNamespace(event_queue=q))
+    sock = AssociationSocket.__new__(AssociationSocket)
+    sock._assoc = assoc
+    sock.socket = None
+    try:
+        AssociationSocket.send(sock, b"\x07\x00\x00\x00\x00\x04\x00\x00\x02\x00")
+        evs = []
+        while not q.empty():
+            evs.append(q.get(False))
+        if evs != ["Evt17"]:
+            done(True, input="AssociationSocket.send() after close() (wrapped socket is None)", observed={"events queued": evs}, expected=["Evt17"])
+    except Exception as e:
+        done(True, input="AssociationSocket.send() after close() (wrapped socket is None), e.g. AA-7 processed in Sta13 after AA-8 closed the transport",
+             observed=f"{type(e).__name__}: {e} escapes send() -> _send -> the action -> do_action -> the reactor thread",
+             expected="the failed send is reported as Evt17 (connection closed) and nothing is raised")
+    done(False, note="a send on a closed transport is reported as Evt17")
 clock = {"t": 0.0}
 real = timer_mod.time.monotonic
 timer_mod.time = type("T", (), {"monotonic": staticmethod(lambda: clock["t"])})
